@@ -66,3 +66,51 @@ Check C11_reader_run_is_trace : forall (o : opts) (now : Z) (ls : list (option (
 Print Assumptions C11_reader_run_is_trace.
 
 
+
+(** ---- the carrier table of the property and no cross-talk against it ---- *)
+From SQ Require Import Base Update Footprint Carriers CrossTalk DownlinkIdem.
+
+
+(** the carrier table written from the property text (Spec/Carriers.v: which DF / type code / subtype may carry which field) coincides with the proved footprint of the squitter path: no clause of the table is looser than the code *)
+Theorem C11_carrier_table_exact : forall (f : fld) (df tc st : N), carrier f df tc st = memf f (fp_update df tc st).
+Proof. exact carrier_exact. Qed.
+Check C11_carrier_table_exact : forall (f : fld) (df tc st : N), carrier f df tc st = memf f (fp_update df tc st).
+Print Assumptions C11_carrier_table_exact.
+
+(** squitter path (-U, and every DF20/21): a frame that is not a carrier of field f leaves f unchanged *)
+Theorem C11_no_crosstalk_squitter_path : forall (obs : option (Q * Q)) (now : Z) (r : row) (m : list N) (df : N) (relaxed : bool) (r' : row) (f : fld), plane_update obs now r m df relaxed = Ok r' -> (forall tc st : N, (is_ext df = true -> get_message_type m = Ok (tc, st)) -> carrier f df tc st = false) -> same f r r'.
+Proof. exact no_crosstalk_squitter_path. Qed.
+Check C11_no_crosstalk_squitter_path : forall (obs : option (Q * Q)) (now : Z) (r : row) (m : list N) (df : N) (relaxed : bool) (r' : row) (f : fld), plane_update obs now r m df relaxed = Ok r' -> (forall tc st : N, (is_ext df = true -> get_message_type m = Ok (tc, st)) -> carrier f df tc st = false) -> same f r r'.
+Print Assumptions C11_no_crosstalk_squitter_path.
+
+(** ... for the short / non-extended formats, whatever the other bits *)
+Theorem C11_no_crosstalk_short : forall (obs : option (Q * Q)) (now : Z) (r : row) (m : list N) (df : N) (relaxed : bool) (r' : row) (f : fld), plane_update obs now r m df relaxed = Ok r' -> is_ext df = false -> carrier f df 0 0 = false -> same f r r'.
+Proof. exact no_crosstalk_squitter_short. Qed.
+Check C11_no_crosstalk_short : forall (obs : option (Q * Q)) (now : Z) (r : row) (m : list N) (df : N) (relaxed : bool) (r' : row) (f : fld), plane_update obs now r m df relaxed = Ok r' -> is_ext df = false -> carrier f df 0 0 = false -> same f r r'.
+Print Assumptions C11_no_crosstalk_short.
+
+(** ... for DF17/18 by type code and subtype *)
+Theorem C11_no_crosstalk_ext : forall (obs : option (Q * Q)) (now : Z) (r : row) (m : list N) (df : N) (relaxed : bool) (r' : row) (f : fld) (tc st : N), plane_update obs now r m df relaxed = Ok r' -> get_message_type m = Ok (tc, st) -> carrier f df tc st = false -> same f r r'.
+Proof. exact no_crosstalk_squitter_ext. Qed.
+Check C11_no_crosstalk_ext : forall (obs : option (Q * Q)) (now : Z) (r : row) (m : list N) (df : N) (relaxed : bool) (r' : row) (f : fld) (tc st : N), plane_update obs now r m df relaxed = Ok r' -> get_message_type m = Ok (tc, st) -> carrier f df tc st = false -> same f r r'.
+Print Assumptions C11_no_crosstalk_ext.
+
+(** downlink (default) path: a decoded downlink that is not a carrier of f leaves f unchanged *)
+Theorem C11_no_crosstalk_downlink_path : forall (obs : option (Q * Q)) (now : Z) (r : row) (d : downlink) (f : fld), carrier_dl f d = false -> same f r (update_from_downlink obs now r d).
+Proof. exact no_crosstalk_downlink_path. Qed.
+Check C11_no_crosstalk_downlink_path : forall (obs : option (Q * Q)) (now : Z) (r : row) (d : downlink) (f : fld), carrier_dl f d = false -> same f r (update_from_downlink obs now r d).
+Print Assumptions C11_no_crosstalk_downlink_path.
+
+(** downlink path stated on the received frame *)
+Theorem C11_no_crosstalk_downlink_message : forall (obs : option (Q * Q)) (now : Z) (r : row) (m : list N) (df : N) (d : downlink) (f : fld), get_downlink_format m = Ok (Some df) -> df_from_message m = Ok (Some d) -> (forall tc st : N, (df = 17 -> get_message_type m = Ok (tc, st)) -> carrier f df tc st = false) -> f <> F_icao -> same f r (update_from_downlink obs now r d).
+Proof. exact no_crosstalk_downlink_message. Qed.
+Check C11_no_crosstalk_downlink_message : forall (obs : option (Q * Q)) (now : Z) (r : row) (m : list N) (df : N) (d : downlink) (f : fld), get_downlink_format m = Ok (Some df) -> df_from_message m = Ok (Some d) -> (forall tc st : N, (df = 17 -> get_message_type m = Ok (tc, st)) -> carrier f df tc st = false) -> f <> F_icao -> same f r (update_from_downlink obs now r d).
+Print Assumptions C11_no_crosstalk_downlink_message.
+
+(** idempotence: applying the same decoded frame again at the same instant changes nothing (default path, all formats and type codes, including position frames) *)
+Theorem C11_refeed_idempotent : forall (obs : option (Q * Q)) (now : Z) (r : row) (d : downlink), update_from_downlink obs now (update_from_downlink obs now r d) d = update_from_downlink obs now r d.
+Proof. exact downlink_idempotent. Qed.
+Check C11_refeed_idempotent : forall (obs : option (Q * Q)) (now : Z) (r : row) (d : downlink), update_from_downlink obs now (update_from_downlink obs now r d) d = update_from_downlink obs now r d.
+Print Assumptions C11_refeed_idempotent.
+
+
